@@ -98,7 +98,7 @@ def check_output(sc, out, cfg_, lat, flds, axes, pos, fields, big=False):
                 arr = fab["arrays"][j].reshape(shape2, order="F")
                 for which, fun in (("mins", np.min), ("maxs", np.max)):
                     hv, tv = C[which][bi][j], float(fun(arr))
-                    if not (abs(hv - tv) <= 2e-16 * abs(tv) or hv == tv):
+                    if not (abs(hv - tv) <= 2e-16 * abs(tv) or hv == tv or (hv != hv and tv != tv)):
                         return "level %d box %d: %s[%r] = %r, extremum of the written data %r" % (l, bi, which, name, hv, tv)
                 # wide slices: a lattice of sample pixels (first, last and every k-th) of EVERY box
                 xs = range(shape2[0]) if not big else sorted(set(list(range(0, shape2[0], max(1, shape2[0] // 6))) + [shape2[0] - 1]))
@@ -124,11 +124,13 @@ def check_output(sc, out, cfg_, lat, flds, axes, pos, fields, big=False):
                                 vals.append(float(flds.level(la, fi)[tuple(q)]))
                             if a == b:
                                 wv = vals[0]
+                                if c07.special_near(flds, cfg_, lim, fi, axes, p3[aA], p3[aB], l, pos):
+                                    wv = float("nan")            # (see c07: huge / infinite neighbour of an on-centre plane)
                             else:
                                 na, nb = centre(*a), centre(*b)
                                 wv = (vals[0] * (nb - pos) + vals[1] * (pos - na)) / (nb - na)
                             cands.append(wv)
-                            if abs(gotv - wv) <= 1e-9 * max(1.0, abs(vals[0]), abs(vals[1])):
+                            if compare.close_ext(gotv, wv, 1e-9 * max(1.0, abs(vals[0]), abs(vals[1]))):
                                 ok = True
                                 break
                         if not ok:
